@@ -1,5 +1,5 @@
 """C20 — legacy {...} patterns render, read back and increase consistently."""
-import datetime as dt
+import datetime as dt, re
 from . import common, v2gen, c05
 from .common import cs, cos, cz, cb
 
@@ -63,7 +63,7 @@ def run(rep, tier, seed, model_ok=True, effort=1):
     n = (500 if tier == "quick" else 8000) * effort
     rep.rule = ("documented legacy composites and part combinations x dates 2000..2099 x build ids x tags: render -> read back -> re-render on the "
                 "implementation, `bumpver test` (result strictly greater under PEP 440, for {pycalver} also as a plain string), chains of bumps, "
-                "engine dispatch consistency between incr_dispatch / _is_valid_version / config; compile, format, parse and `test` compared with the "
+                "engine dispatch consistency between incr_dispatch / _is_valid_version / config; `update` on projects whose files carry {version} and the derived {pep440_version} / {pep440_pycalver} form for the six mapped version patterns; compile, format, parse and `test` compared with the "
                 "Coq model; non-trivial = distinct (pattern, rendered version) that reads back")
     today = v2gen.ordinal(impl.PINNED_TODAY)
     comp_items, comp_meta, fmt_items, fmt_meta, parse_items, parse_meta, cli_items, cli_meta = [], [], [], [], [], [], [], []
@@ -155,6 +155,9 @@ def run(rep, tier, seed, model_ok=True, effort=1):
             exp = "(Exit0 %s %s)" % (cs(new), cs(pep if pep is not None else new)) if code == 0 and new is not None else "ExitErr"
             cli_items.append("(%s,%s,%s,%s,%s,%s)" % (cs(s), cs(pat), v2gen.cflags(fl), cdate, cos(setv), exp))
             cli_meta.append(dict(args=args, exit=code, new=new))
+    # derived search patterns: a file that carries the PEP 440 form of the version under {pep440_version} / {pep440_pycalver},
+    # for every version pattern the legacy engine maps ({pycalver}, {semver}, the four {year}[{month}]{build}{release} forms)
+    derived_stream(rep, impl, r, (4 if tier == "quick" else 40) * effort)
     # chains for {pycalver}
     for start, steps in (("v202001.0999", 60), ("v201712.0001-beta", 40), ("v209912.9997", 8)):
         cur = start
@@ -194,6 +197,53 @@ def run(rep, tier, seed, model_ok=True, effort=1):
         for i in bad:
             rep.mismatch("bumpver test (legacy): model differs from implementation", input=cli_meta[i])
         rep.corr_errors += errs
+
+
+MAPPED = ["{pycalver}", "{semver}", "v{year}{month}{build}{release}", "{year}{month}{build}{release}", "v{year}{build}{release}", "{year}{build}{release}"]
+
+
+def derived_stream(rep, impl, r, rounds):
+    import packaging.version as pv
+    from . import project
+    for _ in range(rounds):
+        for vp in MAPPED:
+            v, d = gen_state(r, impl)
+            if v.bid.startswith("0"):
+                v = v._replace(bid=r.choice(["1001", "1999", "22000", "9998"]))
+            if vp == "{semver}":
+                v = v._replace(tag="final")
+            try:
+                cur = impl.v1version.format_version(v, vp)
+                # release numbers in PEP 440 form + the short tag with its number, spelled as the legacy engine does (no dot before post/dev;
+                # no property asks for the normal form here, only for the same version)
+                pep_cur = pv.Version(cur).base_version + {"final": "", "alpha": "a0", "beta": "b0", "rc": "rc0", "dev": "dev0", "post": "post0"}[v.tag]
+                if pv.Version(pep_cur) != pv.Version(cur):
+                    continue
+            except Exception:
+                continue
+            derived = "{pep440_pycalver}" if (vp == "{pycalver}" and r.random() < 0.5) else "{pep440_version}"
+            contents = {"setup.py": 'setup(\n    version="%s",\n)\n' % pep_cur, "a.txt": "release %s here\n" % cur}
+            prj = project.TempProject(vp, cur, files={"setup.py": ['version="%s"' % derived], "a.txt": ["release {version} here"]}, contents=contents)
+            nd = d + dt.timedelta(days=r.choice([0, 31, 45, 400]))
+            args = ["update", "--no-fetch", "--date", nd.isoformat()] + (["--patch"] if vp == "{semver}" else [])
+            with prj:
+                code, out, logs, exc = prj.run(impl, args)
+                new = next((l.split("New Version: ", 1)[1].strip() for l in logs if "New Version: " in l), None)
+                after = prj.snapshot()
+            rep.case(("derived", vp, cur, nd.isoformat()), nontrivial=code == 0)
+            rep.count("derived-pattern-runs")
+            inp = dict(version_pattern=vp, current_version=cur, file_pattern='version="%s"' % derived, file_text=contents["setup.py"], args=args, exit=code, logs=logs[-3:])
+            if code != 0 or new is None:
+                rep.violation("update fails on a legacy project whose setup.py carries the PEP 440 form of the version", input=inp, **{"class": "v1-derived-pattern"})
+                continue
+            got = after.get("setup.py", b"").decode("utf-8")
+            m = re.fullmatch(r'setup\(\n    version="([^"]*)",\n\)\n', got)
+            try:
+                same = m is not None and pv.Version(m.group(1)) == pv.Version(new) and not m.group(1).startswith("v")
+            except Exception:
+                same = False
+            if not same or after.get("a.txt", b"").decode("utf-8") != "release %s here\n" % new:
+                rep.violation("after the update the file does not carry the PEP 440 form of the new version %s" % new, input=dict(inp, got=got), **{"class": "v1-derived-pattern"})
 
 
 def search(rep, tier, seed, effort=2):
